@@ -37,7 +37,22 @@ class _Conn(object):
         return "<conn %s>" % self.name
 
 
-def _build(case, sch):
+class _WaitingIter(object):
+    """an iterator whose next item only becomes available once everybody else is done (a generator waiting for data that depends on
+    other clients): while it waits - inside next() - the daemon must be able to go on with everything else"""
+    def __init__(self, inner, sch, results, others):
+        self.inner, self.sch, self.results, self.others = inner, sch, results, others
+
+    def __iter__(self):
+        return self
+
+    def __next__(self):
+        if self.sch is not None:
+            self.sch.block_until(lambda: all(self.results.get(k) is not None for k in self.others))
+        return next(self.inner)
+
+
+def _build(case, sch, results=None):
     """-> (daemon, daemonobject, conns, iterators) for the initial table of the case.  A real Daemon object (multiplex flavour: no
     threads of its own, its loop is never run); every lock it creates for itself is scheduler-aware when a scheduler is in charge"""
     import threading
@@ -57,6 +72,9 @@ def _build(case, sch):
     its = {}
     for sid, spec in sorted(case["table"].items()):
         it = iter(["%s.%d" % (sid, i) for i in range(spec["items"])])
+        waiters = [k for k, op in enumerate(case["ops"]) if op[0] == "slownext" and op[1] == sid]
+        if waiters:
+            it = _WaitingIter(it, sch, results if results is not None else {}, [k for k in range(len(case["ops"])) if k not in waiters])
         its[sid] = it
         owner = conns.get(spec["owner"])          # None = lingering (its connection has gone)
         d.streaming_responses[sid] = (owner, NOW - spec["age"], 0 if owner is not None else NOW - spec["gone"], it)
@@ -81,7 +99,7 @@ def _ops(case, d, dobj, conns, results, its):
             if op[0] == "hk":
                 d._housekeeping()
                 results[k] = ["done"]
-            elif op[0] == "next":
+            elif op[0] in ("next", "slownext"):
                 current_context.client = conns[op[2]]
                 results[k] = _norm(lambda: dobj.get_next_stream_item(op[1]))
             elif op[0] == "close":
@@ -106,7 +124,7 @@ def _final(d, its):
         out[sid] = [getattr(owner, "name", None), bool(linger_ts)]
     # what each existing stream would deliver next (consumes the iterators: the trial is over)
     for sid in out:
-        out[sid].append(next(its[sid], None) if sid in its else "?")
+        out[sid].append(next(getattr(its[sid], "inner", its[sid]), None) if sid in its else "?")
     return out
 
 
@@ -135,8 +153,8 @@ def sequential_outcomes(case):
     n = len(case["ops"])
     for perm in itertools.permutations(range(n)):
         with _Env(case):
-            d, dobj, conns, its = _build(case, None)
             results = {}
+            d, dobj, conns, its = _build(case, None, results)
             fns = _ops(case, d, dobj, conns, results, its)
             try:
                 for k in perm:
@@ -152,8 +170,8 @@ def sequential_outcomes(case):
 def run_trial(case, preempt=None, choices=None):
     with _Env(case):
         sch = S.Sched(FILES, preempt=preempt, choices=choices, max_steps=3000)
-        d, dobj, conns, its = _build(case, sch)
         results = {}
+        d, dobj, conns, its = _build(case, sch, results)
         for k, fn in enumerate(_ops(case, d, dobj, conns, results, its)):
             sch.spawn(fn, "op%d" % k)
         try:
@@ -268,6 +286,9 @@ def catalogue():
         for o in others:
             yield {"layer": "table", "table": table, "ops": [["hk"], o], "lifetime": lifetime, "linger": linger}
             yield {"layer": "table", "table": table, "ops": [o, ["hk"]], "lifetime": lifetime, "linger": linger}
+        for o in (["disc", "B"], ["close", "s1"], ["open", "B"], ["next", "s1", "B"], ["hk"]):
+            # a stream whose next item takes its time (it is produced only after the other operation is through)
+            yield {"layer": "table", "table": table, "ops": [["slownext", "s0", "A"], o], "lifetime": lifetime, "linger": linger}
         for a, b in itertools.permutations(others, 2):
             if a[0] == b[0] == "next" and a[1] == b[1]:
                 continue
